@@ -96,6 +96,31 @@ Definition on_msg : N -> N -> decision := on_msg_cfg onmsg_std.
 Definition on_msg_wire (c : onmsg_cfg) (parsed : bool) (from : N) : option N :=
   if parsed then match on_msg_cfg c from from with Enqueue => Some from | Drop => None end else None.
 
+(* locatePartyIndex: the slot tss-lib files the message under = the position, in the session's party list (sorted by
+   key), of the party whose key EQUALS the sender's; Go's -1 (None here) for everybody else.  tss-lib only refuses
+   indices < 0 or >= n and never looks at the key again, so this lookup is part of the sender binding. *)
+Fixpoint locate (ids : list N) (k : N) : option nat :=
+  match ids with
+  | [] => None
+  | x :: t => if x =? k then Some O else match locate t k with Some i => Some (S i) | None => None end
+  end.
+
+(* the Go int as an N: index + 1, 0 for -1 *)
+Definition slot_code (s : option nat) : N := match s with Some i => N.of_nat (S i) | None => 0 end.
+
+(* What the code's lookup is known to be: `exact` = the translator recognised the linear scan returning the index of the
+   equal key (and OnMsg using it for the PartyID built from the transport sender, and Init sorting the identifiers);
+   otherwise nothing is known about the slot. *)
+Definition slot_of (exact : bool) (ids : list N) (k : N) : option (option nat) :=
+  if exact then Some (locate ids k) else None.
+
+(* OnMsg on wire bytes, with the slot: (identifier the queued message is attributed to, slot it is filed under) *)
+Definition on_msg_slot (c : onmsg_cfg) (parsed : bool) (ids : list N) (from : N) : option (N * option nat) :=
+  match on_msg_wire c parsed from with
+  | Some k => Some (k, locate ids k)
+  | None => None
+  end.
+
 (* ------------------------------------------------------------------------------------------ Sign *)
 
 Inductive sres := SOk (signed : bytes) | SErr.
